@@ -104,7 +104,7 @@ func (g *G) Intn(n int) int {
 	return g.R.Intn(n)
 }
 func (g *G) Chance(num, den int) bool { return g.R.Intn(den) < num }
-func (g *G) Pick(ss ...string) string  { return ss[g.R.Intn(len(ss))] }
+func (g *G) Pick(ss ...string) string { return ss[g.R.Intn(len(ss))] }
 
 // Stats accumulates what a run covered.
 type Stats struct {
